@@ -4,7 +4,8 @@ use serde_json::json;
 
 use crate::fw::{CaseInfo, Ctx, Fail, Tier, hash_of};
 use crate::sim::sched::Mix;
-use crate::srv::explore::{Obs, Plan, explore_blocking};
+use crate::srv::explore::{Obs, Plan, Strategy, explore_blocking};
+use crate::srv::RpcKind;
 use crate::srv::shard::{UnitResult, run_parent, run_worker, worker_id};
 use crate::srv::{Prog, SrvConfig};
 
@@ -20,6 +21,8 @@ pub enum Unit {
     Dfs { cfg: SrvConfig, first: usize },
     /// random deeper paths
     Random { cfg: SrvConfig, seed: u64, count: usize },
+    /// strategy-driven paths with requests and responses delivered separately
+    Strategies { cfg: SrvConfig, seed: u64 },
 }
 
 /// The C13 oracle on an undisturbed session; also used by C14 for "the outcome is unchanged".
@@ -115,6 +118,38 @@ fn run_unit(u: &Unit, emit: &mut dyn FnMut(UnitResult)) {
                 }
             }
         }
+        Unit::Strategies { cfg, seed } => {
+            let n = cfg.n();
+            let mut sts = vec![Strategy::RepliesLast, Strategy::RequestsLast, Strategy::Last, Strategy::HoldKind(RpcKind::Validate), Strategy::HoldKind(RpcKind::Run), Strategy::HoldKind(RpcKind::Consts)];
+            for p in 0..n {
+                sts.push(Strategy::Starve(p));
+            }
+            for k in 0..6 {
+                sts.push(Strategy::Random(seed.wrapping_mul(31).wrapping_add(k)));
+            }
+            for st in sts {
+                for prefix in [vec![], vec![1], vec![2, 1]] {
+                    let plan = Plan { script: prefix, split_replies: true, strategy: Some(st.clone()), ..Default::default() };
+                    let obs0 = explore_blocking(cfg, &plan);
+                    // report the concrete path so that the replay does not depend on the strategy code
+                    let case = Case { cfg: cfg.clone(), plan: Plan { script: obs0.choices.clone(), split_replies: true, ..Default::default() } };
+                    match oracle(cfg, &obs0) {
+                        Ok(()) => {
+                            let (r, _) = (Ok::<(), Fail>(()), ());
+                            let _ = r;
+                            let mut cov = obs0.coverage.clone();
+                            cov.sort();
+                            cov.dedup();
+                            let mut classes: Vec<String> = cov.iter().map(|c| format!("cov:{c}")).collect();
+                            classes.push(format!("n={n}"));
+                            classes.push(format!("strategy={}", format!("{st:?}").split('(').next().unwrap_or("")));
+                            emit(UnitResult::Ok(CaseInfo { nontrivial: Some(hash_of(&serde_json::to_string(&case).unwrap())), classes, sample: Some(json!({"n": n, "leader": cfg.leader, "strategy": format!("{st:?}"), "split_replies": true, "choices": obs0.choices, "consts_from": cfg.prog.consts_from})), ..Default::default() }));
+                        }
+                        Err(f) => emit(UnitResult::Fail(f, serde_json::to_value(&case).unwrap())),
+                    }
+                }
+            }
+        }
         Unit::Random { cfg, seed, count } => {
             let mut m = Mix(*seed);
             for _ in 0..*count {
@@ -174,6 +209,14 @@ pub fn units(tier: Tier, seed: u64) -> Vec<Unit> {
             add_dfs(cfg);
         }
     }
+    // strategy-driven paths with separately delivered responses
+    for n in [2usize, 3] {
+        for c in 0..=n {
+            for (i, cfg) in configs(n, c, seed + 7, n == 2 || tier == Tier::Thorough).into_iter().enumerate() {
+                u.push(Unit::Strategies { cfg, seed: seed * 77 + (c * 10 + i) as u64 });
+            }
+        }
+    }
     // random deeper paths through the larger spaces
     let deep = configs(3, 2, seed + 1, false).into_iter().chain(configs(3, 3, seed + 2, false));
     for (i, cfg) in deep.enumerate() {
@@ -189,7 +232,7 @@ pub fn run(tier: Tier, seed: u64) -> i32 {
         return run_worker(units(tier, seed), k, of, run_unit);
     }
     let ctx = Ctx::new("C13", tier, seed, "exploration");
-    ctx.set_rule("stateless exhaustive DFS (odometer over the choice stack, one real session per path) over the arrival order of schedule calls and the delivery order of every validate / run / consts RPC: n=2 with constants from 0/1/2 parties and every leader, n=3 with constants from 0 and 1 party (thorough: 2 and 3), plus random deeper paths through n=3 with constants from 2 and 3 parties; output destination present/absent per party, concurrency 1..2; MPC messages auto-delivered FIFO; oracle: every schedule Ok, each party with a destination receives exactly one result equal to the native Rust evaluation of the program, none without, every state machine stopped without panic, all permits back at exact quiescence, no RPC unanswered; non-trivial = path on which a validate is delivered before its target's schedule or constants arrive in different phases (coverage classes); distinct by hash of (configuration, path)");
+    ctx.set_rule("stateless exhaustive DFS (odometer over the choice stack, one real session per path) over the arrival order of schedule calls and the delivery order of every validate / run / consts RPC: n=2 with constants from 0/1/2 parties and every leader, n=3 with constants from 0 and 1 party (thorough: 2 and 3), plus random deeper paths through n=3 with constants from 2 and 3 parties, plus strategy-driven paths in which the *response* of every coordination RPC is delivered as a separate action (responses last, requests last, starve party p, hold one RPC kind, uniform random, last-enabled) for n=2,3 and every number of constant-supplying parties; output destination present/absent per party, concurrency 1..2; MPC messages auto-delivered FIFO; oracle: every schedule Ok, each party with a destination receives exactly one result equal to the native Rust evaluation of the program, none without, every state machine stopped without panic, all permits back at exact quiescence, no RPC unanswered; non-trivial = path on which a validate is delivered before its target's schedule or constants arrive in different phases (coverage classes); distinct by hash of (configuration, path)");
     ctx.assume("exact quiescence = no client event over 3 x 40 yields on a current-thread runtime and no extra OS thread (compile thread)");
     let n_units = units(tier, seed).len();
     ctx.extra("work_units", json!(n_units));
